@@ -109,7 +109,9 @@ static const char *st_name[] = { "id_int", "id_float", "id_bool", "id_str", "str
 static const long STRLENS[] = { 0, 1, 2, 255, 256, 4095, 4096, 8100, 8185, 8186, 8187, 8188, 8190, 8192, 8195, 16384, 65536 };
 static const long RESLENS[] = { 0, 1, 4089, 4090, 4091, 4092, 4096, 8200, 65536, 1048570, 1048571, 1048572, 1048580, 2000000 };
 static const long ARRLENS[] = { 0, 1, 2, 100, 454, 455, 456, 1000, 20000, 116507, 116509, 200000 };
-static const char *INTS[] = { "0", "1", "(- 0 1)", "42", "9223372036854775807", "(- (- 0 9223372036854775807) 1)", "4294967296", "(- 0 2147483649)" };
+static const char *INTS[] = { "0", "1", "(- 0 1)", "42", "9223372036854775807", "(- (- 0 9223372036854775807) 1)", "4294967296", "(- 0 2147483649)",
+                               "2147483647", "2147483648", "(- 0 2147483648)", "4294967295", "65535", "65536", "255", "(- 0 32769)" };
+#define NINTS 16
 static const char *FLOATS[] = { "0.0", "(- 0.0 0.0)", "1.5", "(- 0.0 2.25)", "(sqrt (- 0.0 1.0))", "(pow 10.0 400.0)", "(- 0.0 (pow 10.0 400.0))", "(pow 10.0 (- 0.0 320.0))", "3.141592653589793" };
 
 static void emit_step(Buf *b, int i, Step *s) {
@@ -135,7 +137,7 @@ static void emit_step(Buf *b, int i, Step *s) {
         buf_printf(b, "    let r%d: array<string> = (sim_id_sarr a%d)\n    (println (+ %s (int_to_string (array_length r%d))))\n", i, i, pre, i);
         if (s->a > 0) buf_printf(b, "    (println (+ %s (sg (at r%d %ld))))\n", pre, i, s->a - 1);
         break;
-    case ST_MIX: buf_printf(b, "    (println (+ %s (int_to_string (sim_mix %s (mk %ld 5) %s %ld))))\n", pre, INTS[s->a % 8], s->b, (s->a & 1) ? "true" : "false", s->a * 977); break;
+    case ST_MIX: buf_printf(b, "    (println (+ %s (int_to_string (sim_mix %s (mk %ld 5) %s %ld))))\n", pre, INTS[s->a % NINTS], s->b, (s->a & 1) ? "true" : "false", s->a * 977); break;
     case ST_VOID: buf_printf(b, "    unsafe { (sim_void %ld) }\n    (println (+ %s \"void-ok\"))\n", s->a, pre); break;
     case ST_MKSTR: buf_printf(b, "    (println (+ %s (sg (sim_mkstr %ld))))\n", pre, s->a); break;
     case ST_MKARR:
@@ -143,7 +145,7 @@ static void emit_step(Buf *b, int i, Step *s) {
         if (s->a > 0) buf_printf(b, "    (println (+ %s (int_to_string (at r%d %ld))))\n", pre, i, s->a - 1);
         break;
     case ST_OPAQUE: buf_printf(b, "    let h%d: Handle = (sim_handle_new %ld)\n    (println (+ %s (int_to_string (sim_handle_get h%d))))\n", i, s->a, pre, i); break;
-    case ST_MIXF: buf_printf(b, "    (print %s)\n    (println (sim_mixf %s %s (mk %ld 3)))\n", pre, INTS[s->a % 8], FLOATS[s->b % 9], (s->a * 37) % 300); break;
+    case ST_MIXF: buf_printf(b, "    (print %s)\n    (println (sim_mixf %s %s (mk %ld 3)))\n", pre, INTS[s->a % NINTS], FLOATS[s->b % 9], (s->a * 37) % 300); break;
     case ST_LOOP: buf_printf(b, "    let mut lk%d: int = 0\n    let mut la%d: int = 0\n    while (< lk%d %ld) {\n        set la%d (+ la%d (sim_id_int (- 0 lk%d)))\n        set lk%d (+ lk%d 1)\n    }\n    (println (+ %s (int_to_string la%d)))\n", i, i, i, s->a, i, i, i, i, i, pre, i); break;
     case ST_SQRT: buf_printf(b, "    (print %s)\n    (println (sqrt %s))\n    (print %s)\n    (println (pow %s 2.0))\n", pre, FLOATS[s->a], pre, FLOATS[s->b]); break;
     }
@@ -230,7 +232,7 @@ static void plan_gen(CPlan *P, uint64_t seed, const RunOpts *o) {
     for (int i = 0; i < P->nsteps; i++) {
         Step *s = &P->st[i]; s->kind = (int)sim_rndn(ST_NKINDS);
         switch (s->kind) {
-        case ST_INT: s->a = sim_rndn(8); break;
+        case ST_INT: s->a = sim_rndn(NINTS); break;
         case ST_FLOAT: s->a = sim_rndn(9); break;
         case ST_BOOL: s->a = sim_rndn(2); break;
         case ST_STR: case ST_STRLEN: s->a = STRLENS[sim_rndn(sizeof STRLENS / sizeof *STRLENS)]; s->b = sim_rndn(1000); break;
@@ -336,8 +338,10 @@ static int c16_pre_syscall(SimProc *p, const char *name, int fd, size_t n) {
         if (hit) {
             int a = act_process(P->fkind);
             if (a) { J.fired = true; return a; }
-            if (P->fkind == FK_CLOSE_IN) { simk_proc_close_fd(p, 0); if (P->linger) simk_proc_close_fd(p, 1); J.fired = true; return 0; }
-            if (P->fkind == FK_CLOSE_OUT) { simk_proc_close_fd(p, 1); if (P->linger) simk_proc_close_fd(p, 0); J.fired = true; return 0; }
+            /* with linger the co-process closes both pipes and then sits there (wedged, or busy with something else): it does not
+             * go on to notice the closed descriptor and exit */
+            if (P->fkind == FK_CLOSE_IN) { simk_proc_close_fd(p, 0); if (P->linger) simk_proc_close_fd(p, 1); J.fired = true; if (P->linger) { J.lingered = true; sim_block_forever(); } return 0; }
+            if (P->fkind == FK_CLOSE_OUT) { simk_proc_close_fd(p, 1); if (P->linger) simk_proc_close_fd(p, 0); J.fired = true; if (P->linger) { J.lingered = true; sim_block_forever(); } return 0; }
         }
     }
     if (strcmp(name, "write") == 0 && fd == 1) {
@@ -349,8 +353,10 @@ static int c16_pre_syscall(SimProc *p, const char *name, int fd, size_t n) {
         if (hit) {
             int a = act_process(P->fkind);
             if (a) { J.fired = true; return a; }
-            if (P->fkind == FK_CLOSE_IN) { simk_proc_close_fd(p, 0); if (P->linger) simk_proc_close_fd(p, 1); J.fired = true; return 0; }
-            if (P->fkind == FK_CLOSE_OUT) { simk_proc_close_fd(p, 1); if (P->linger) simk_proc_close_fd(p, 0); J.fired = true; return 0; }
+            /* with linger the co-process closes both pipes and then sits there (wedged, or busy with something else): it does not
+             * go on to notice the closed descriptor and exit */
+            if (P->fkind == FK_CLOSE_IN) { simk_proc_close_fd(p, 0); if (P->linger) simk_proc_close_fd(p, 1); J.fired = true; if (P->linger) { J.lingered = true; sim_block_forever(); } return 0; }
+            if (P->fkind == FK_CLOSE_OUT) { simk_proc_close_fd(p, 1); if (P->linger) simk_proc_close_fd(p, 0); J.fired = true; if (P->linger) { J.lingered = true; sim_block_forever(); } return 0; }
             /* message-garbling kinds are applied by the write filter */
         }
     }
